@@ -18,7 +18,9 @@
    modelled); both are carried by the implementation-side oracle on every generated case. *)
 From Coq Require Import List NArith Bool.
 Import ListNotations.
-From BM Require Import Bytes Escape Tokenizer Policy Loop LoopInv LoopProps CommentRT SanRoundTrip TokenLevel.
+From Coq Require Import NArith.
+From BM Require Import Bytes Escape Tokenizer Policy Loop LoopInv LoopProps CommentRT Retokenize SanRoundTrip TokenLevel.
+Open Scope N_scope.
 
 Section C01.
   Variables M U R : Type.
@@ -70,6 +72,12 @@ Theorem C01_comment_reread : forall d rest,
   next [] (render_item (IComment d) ++ rest) = Tok (RComment (escape_comment d)) [] rest.
 Proof. intros d rest. apply next_rendered_comment. Qed.
 
+(* ... and its data comes back unchanged, unless it contains a carriage return or a NUL, which the
+   tokenizer normalises (comment_reread is what C01_output_tokens reports for a kept comment) *)
+Theorem C01_comment_data_unchanged : forall d, Forall (fun c => (c =? 13) = false /\ (c =? 0) = false) d -> comment_reread d = d.
+Proof. exact comment_reread_id. Qed.
+
 Print Assumptions C01_items_partial.
 Print Assumptions C01_comment_reread.
+Print Assumptions C01_comment_data_unchanged.
 Print Assumptions C01_output_tokens.
